@@ -14,3 +14,4 @@ Definition consumer_keeps_early_parts : bool := true.
 Definition txid_under_lock : bool := true.
 Definition consumer_state_under_lock : bool := true.
 Definition sco_full_queue_loses_wait : bool := false.
+Definition consumer_restart_fresh_manager : bool := true.
